@@ -82,7 +82,7 @@ PROPS = {
     "C11": P("C11", ["LSProofs.Props.C11", "LSProofs.Resource"], ["cap", "len", "ptr", "ev", "rc"],
              [fam("capacity", n=300), RANDOM_Q], [fam("capacity", n=3000), RANDOM_T, ENUM_T], G11,
              search=[fam("capacity", n=3000), fam("random", n=30000)]),
-    "C12": P("C12", ["LSProofs.Props.C12"], ["cap"],
+    "C12": P("C12", ["LSProofs.Props.C12", "LSProofs.Amortized"], ["cap"],
              [fam("growth", n=1), RANDOM_Q], [fam("growth", n=4), RANDOM_T], ["amortizedGrowth", "heapMaxLen", "growthCallArgs"],
              search=[fam("growth", n=4), fam("random", n=30000)]),
     "C13": P("C13", ["LSProofs.Props.C13"], ["cap", "kind", "text"],
